@@ -1,5 +1,6 @@
 import Drivers.Proto
 import St4sd.Model.Instance
+import St4sd.Model.InstanceDir
 /-!
 Model driver for property C07.
 
@@ -85,6 +86,74 @@ def handle (j : Json) : Except String Json := do
       ("stored_again", encDoc (store N E')),
       ("before", jarr ((runningConfig N E).map encResolved)),
       ("after", jarr ((runningConfig N E').map encResolved))]
+  | "history" =>
+    -- store, then one load+store cycle per entry of `reloads` (the platform each load names; 0 = none named)
+    let N ← getNat j "N"
+    let P ← getNat j "P"
+    let doc ← decDoc (← j.getObjVal? "doc")
+    let reloads ← (← getArr j "reloads").mapM (·.getNat?)
+    let E : Exp := { doc := doc, plat := P, patches := [] }
+    let mut cur : Doc := store N E
+    let mut plats := storedPlatforms P
+    let mut out : Array Json := #[]
+    for Q in reloads do
+      if !loadable plats Q then
+        out := out.push (jobj [("loadable", jbool false)])
+        break
+      let Ei : Exp := { doc := cur, plat := Q, patches := [] }
+      cur := store N Ei
+      plats := storedPlatforms Q
+      out := out.push (jobj [("loadable", jbool true), ("stored", encDoc cur),
+        ("after", jarr ((runningConfig N Ei).map encResolved))])
+    return jobj [
+      ("resolves", jbool (resolves N doc P)),
+      ("resolvesFully", jbool (resolvesFully N doc P)),
+      ("stored", encDoc (store N E)),
+      ("dropOvr", encDoc (dropOvr (store N E))),
+      ("before", jarr ((runningConfig N E).map encResolved)),
+      ("cycles", Json.arr out)]
+  | "dir" =>
+    -- instance directory: manifest deployment, implied folders, reading of references
+    let decKind (s : String) : Except String St4sd.InstanceDir.Kind :=
+      match s with
+      | "dir" => pure .dir | "file" => pure .file | "linkdir" => pure .linkDir
+      | "linkfile" => pure .linkFile | "linkbroken" => pure .linkBroken
+      | _ => throw s!"kind {s}"
+    let encKind (k : St4sd.InstanceDir.Kind) : String :=
+      match k with
+      | .dir => "dir" | .file => "file" | .linkDir => "linkdir" | .linkFile => "linkfile" | .linkBroken => "linkbroken"
+    let decListing (k : String) : Except String St4sd.InstanceDir.Listing := do
+      (← getArr j k).mapM fun e => do
+        let p ← e.getArr?
+        if p.size != 2 then throw "listing entry"
+        return ((← p[0]!.getNat?), (← decKind (← p[1]!.getStr?)))
+    let manifest ← (← getArr j "manifest").mapM fun e => do
+      let m ← getStr e "method"
+      return ({ top := (← getNat e "top"), nested := (← getBool e "nested"),
+                method := if m == "link" then .link else .copy } : St4sd.InstanceDir.Entry)
+    let lCreate ← decListing "listing_create"
+    let lReload ← decListing "listing_reload"
+    let extra ← (← getArr j "extra").mapM (·.getNat?)
+    let refs ← (← getArr j "refs").mapM fun e => do
+      let st : Option Nat := match e.getObjVal? "stage" with
+        | .ok v => (match v.getNat? with | .ok n => some n | .error _ => none)
+        | .error _ => none
+      return ({ stage := st, producer := (← getNat e "producer"), hasSlash := (← getBool e "hasSlash") }
+        : St4sd.InstanceDir.Ref)
+    let fc := St4sd.InstanceDir.foldersAtCreation manifest lCreate extra
+    let fr := St4sd.InstanceDir.foldersAtReload lReload extra
+    let dep := St4sd.InstanceDir.deploy [] manifest
+    return jobj [
+      ("deployed", match dep with
+        | some l => jarr (l.map fun e => jarr [jnat e.1, Json.str (encKind e.2)])
+        | none => Json.null),
+      ("implied_create", jarr ((St4sd.InstanceDir.implied lCreate).map jnat)),
+      ("implied_reload", jarr ((St4sd.InstanceDir.implied lReload).map jnat)),
+      ("folders_create", jarr (fc.map jnat)),
+      ("folders_create_own", jarr ((St4sd.InstanceDir.foldersAtCreation manifest lCreate []).map jnat)),
+      ("folders_reload", jarr (fr.map jnat)),
+      ("direct_create", jarr (refs.map fun r => jbool (St4sd.InstanceDir.isDirect fc r))),
+      ("direct_reload", jarr (refs.map fun r => jbool (St4sd.InstanceDir.isDirect fr r)))]
   | _ => throw s!"unknown op {op}"
 
 def main : IO Unit := serve handle
